@@ -4,6 +4,8 @@ lines on stdin and prints one line per operation.  Core-only (no Mathlib) so it
 links as a native executable.
 -/
 import Verif.Drv.Runner
+import Verif.Drv.RhpClient
+import Verif.Drv.Funding
 import Verif.Drv.KV
 import Verif.Drv.Chain
 import Verif.Drv.Seed
@@ -11,9 +13,11 @@ import Verif.Drv.Seed
 open Verif.Drv
 
 def registry : List (String × List (String × Model)) := [
+  ("c10", c10Models),
   ("kv", kvModels),
   ("chain", chainModels),
-  ("seed", seedModels)
+  ("seed", seedModels),
+  ("funding", fundingModels)
 ]
 
 def findModel (ws : List String) : Option (Model × List String) :=
